@@ -1054,7 +1054,27 @@ func builtinOracleHistories() [][][]pipeline.Change {
 	ing2b := world.Ingress("ns1", "ing2", 20, world.IngRule{Host: "b.example", Paths: []world.IngPath{{Path: "/", Type: "Prefix", Service: "svc2", PortNum: 80}}},
 		world.IngRule{Host: "", Paths: []world.IngPath{{Path: "/app", Type: "Prefix", Service: "svc2", PortNum: 80}}})
 	h2 := [][]pipeline.Change{mk(s1, e1, s2, e2, ing1, ing2a), {{Op: pipeline.Update, Obj: ing2b}}}
-	return [][][]pipeline.Change{h1, h2}
+	// drain-support: an address moves from ready to not ready (same address set), then back:
+	// only the WEIGHT of one server changes, the rebuilt backend must not be taken for unchanged
+	cm := &api.ConfigMap{}
+	cm.Namespace, cm.Name = "ingress-controller", "haproxy-ingress"
+	cm.Data = map[string]string{"drain-support": "true"}
+	e1two := world.Endpoints("ns1", "svc1", world.EpPort{Name: "http", Port: 8080, Ready: []string{"10.1.0.1", "10.1.0.3"}})
+	e1flip := world.Endpoints("ns1", "svc1", world.EpPort{Name: "http", Port: 8080, Ready: []string{"10.1.0.1"}, NotReady: []string{"10.1.0.3"}})
+	inga := world.Ingress("ns1", "ing1", 10, world.IngRule{Host: "a.example", Paths: []world.IngPath{{Path: "/", Type: "Prefix", Service: "svc1", PortNum: 80}}})
+	h3 := [][]pipeline.Change{mk(s1, e1two, cm, inga), {{Op: pipeline.Update, Obj: e1flip}}, {{Op: pipeline.Update, Obj: e1two}}}
+	// two events for one ingress in ONE batch: ing2 is created for b.example -> svc2 with a per
+	// path policy and, before the reconciliation, updated to also route b.example/admin to
+	// svc1, a backend that already exists through ing1: the references of the NEWEST version
+	// must be pre-tracked
+	pol := map[string]string{world.AnnPrefix + "whitelist-source-range": "10.0.0.0/8"}
+	ing2v1 := world.Ingress("ns1", "ing2", 20, world.IngRule{Host: "b.example", Paths: []world.IngPath{{Path: "/", Type: "Prefix", Service: "svc2", PortNum: 80}}})
+	ing2v1.Annotations = pol
+	ing2v2 := world.Ingress("ns1", "ing2", 20, world.IngRule{Host: "b.example", Paths: []world.IngPath{{Path: "/", Type: "Prefix", Service: "svc2", PortNum: 80},
+		{Path: "/admin", Type: "Prefix", Service: "svc1", PortNum: 80}}})
+	ing2v2.Annotations = pol
+	h4 := [][]pipeline.Change{mk(s1, e1, s2, e2, inga), {{Op: pipeline.Create, Obj: ing2v1}, {Op: pipeline.Update, Obj: ing2v2}}}
+	return [][][]pipeline.Change{h1, h2, h3, h4}
 }
 
 func knownDefaultBackendHistory() [][]pipeline.Change {
